@@ -128,6 +128,17 @@ def run(ctx, widen=False):
     sub = [p for p in progs if not any(c.isdecimal() and not c.isascii() for c in p)]
     sub = sub if thorough else sub[:12000]
     aststream.run_stream(ctx, sub, dict_compress=False)
+    # the hypothesis of the tree-level theorem `names_from_vocabulary` (variable tokens carry letters only — the lexer's own
+    # guarantee, `lex_variable_letters`) holds of the tree the parser model builds for every generated program
+    vt = [p for p in sub if vy.in_codepage(p)] if hasattr(vy, "in_codepage") else sub
+    out = ctx.driver(["placed\t" + vy.cps(p) for p in vt])
+    ctx.count("corr:vtok", len(vt))
+    bad = 0
+    for p, m in zip(vt, out):
+        if "vtok=F" in m:
+            bad += 1
+            ctx.disagree("vtok", p, "variable tokens carry letters only (lexer)", m)
+    ctx.bump("vtok:hypothesis holds", len(vt) - bad)
     dsub = [p for p in dict.fromkeys(dprogs) if not any(c.isdecimal() and not c.isascii() for c in p)]
     aststream.run_stream(ctx, dsub, dict_compress=True)
 
